@@ -139,7 +139,11 @@ func unmarshalTicketsSequence(in asn1.RawValue) ([]Ticket, error) {
 	//We pull out raw values from the larger raw value (that is actually the data of the sequence of raw values) and track our position moving along the data.
 	b := in.Bytes
 	// Ignore the head of the asn1 stream (1 byte for tag and those for the length) as this is what tells us its a sequence but we're handling it ourselves
-	p := 1 + asn1tools.GetNumberBytesInLengthHeader(in.Bytes)
+	n := asn1tools.GetNumberBytesInLengthHeader(in.Bytes)
+	if n < 1 || 1+n > len(b) {
+		return nil, fmt.Errorf("unmarshaling sequence of tickets failed: the %d bytes provided do not hold the header of a sequence", len(b))
+	}
+	p := 1 + n
 	var tkts []Ticket
 	var raw asn1.RawValue
 	for p < (len(b)) {
